@@ -39,10 +39,47 @@ import (
 // (one per offered path) that forward and record, and a mock SCION daemon that
 // serves DRKeys derived with the real generic.Deriver.
 
+// Host addresses of the SCION worlds. A world may ask for IPv6 hosts by setting scV6Next
+// before it calls newSCIONWorld (runs execute one after the other in a worker process);
+// every other world gets the IPv4 set.
+var (
+	scSrvIP   = "10.0.0.1"
+	scCliIP   = "10.0.0.2"
+	scAtkIP   = "10.0.0.66"
+	scOtherIP = "10.0.0.9" // another host of the server's AS
+	scV6Next  = false
+	scV6      = false
+)
+
+func scUseFamily(v6 bool) {
+	scV6 = v6
+	if v6 {
+		scSrvIP, scCliIP, scAtkIP, scOtherIP = "fd00:1::1", "fd00:1::2", "fd00:1::66", "fd00:1::9"
+	} else {
+		scSrvIP, scCliIP, scAtkIP, scOtherIP = "10.0.0.1", "10.0.0.2", "10.0.0.66", "10.0.0.9"
+	}
+}
+
+// scDrawFamily lets the run's tape decide the address family of the next SCION world.
+func scDrawFamily(r *simcore.Run) {
+	scV6Next = r.Tape.Bool(1, 4, "ipv6")
+	if scV6Next {
+		r.Probe("ipv6-hosts")
+	}
+}
+
+// scRouterIP is the underlay address of border router i.
+func scRouterIP(i int) string {
+	if scV6 {
+		return fmt.Sprintf("fd00:2::%x", i+1)
+	}
+	return fmt.Sprintf("10.0.1.%d", i+1)
+}
+
+// hp joins a host address and a port ("[v6]:port" for IPv6).
+func hp(ip string, port int) string { return net.JoinHostPort(ip, fmt.Sprint(port)) }
+
 const (
-	scSrvIP      = "10.0.0.1"
-	scCliIP      = "10.0.0.2"
-	scAtkIP      = "10.0.0.66"
 	scSvcPort    = 10123
 	scEndhost    = 30041
 	scRouterPort = 30001
@@ -90,6 +127,8 @@ func newSCIONWorld(r *simcore.Run, srvOff time.Duration, nrouters int) *scionWor
 	activate(r)
 	resetProm()
 	server.VerifResetTSS()
+	scUseFamily(scV6Next)
+	scV6Next = false
 	w := &scionWorld{r: r, net: simnet.New(r)}
 	w.srv = w.net.AddHost("srv", simclock.New(srvOff, 0, 1e-5), scSrvIP)
 	w.cli = w.net.AddHost("cli", simclock.New(0, 0, 1e-5), scCliIP)
@@ -104,9 +143,9 @@ func newSCIONWorld(r *simcore.Run, srvOff time.Duration, nrouters int) *scionWor
 	})
 	w.dc = &mockDaemon{secret: []byte("sim drkey secret")}
 	for i := 0; i < nrouters; i++ {
-		ip := fmt.Sprintf("10.0.1.%d", i+1)
+		ip := scRouterIP(i)
 		h := w.net.AddHost(fmt.Sprintf("br%d", i), simclock.New(0, 0, 0), ip)
-		c, err := w.net.Listen(fmt.Sprintf("%s:%d", ip, scRouterPort), false)
+		c, err := w.net.Listen(hp(ip, scRouterPort), false)
 		if err != nil {
 			panic(err)
 		}
@@ -136,7 +175,7 @@ func (w *scionWorld) goSafe(tag string, f func()) {
 func (w *scionWorld) startServers(n int, auth bool, dscp uint8, provider *ntske.Provider, forwarder bool) {
 	m := server.VerifNewSCIONServerMetrics()
 	for i := 0; i < n; i++ {
-		c, err := w.net.Listen(fmt.Sprintf("%s:%d", scSrvIP, scSvcPort), true)
+		c, err := w.net.Listen(hp(scSrvIP, scSvcPort), true)
 		if err != nil {
 			panic(err)
 		}
@@ -151,7 +190,7 @@ func (w *scionWorld) startServers(n int, auth bool, dscp uint8, provider *ntske.
 		})
 	}
 	// the server's own end-host port listener (as StartSCIONServer starts it)
-	ce, err := w.net.Listen(fmt.Sprintf("%s:%d", scSrvIP, scEndhost), true)
+	ce, err := w.net.Listen(hp(scSrvIP, scEndhost), true)
 	if err != nil {
 		panic(err)
 	}
@@ -164,7 +203,7 @@ func (w *scionWorld) startServers(n int, auth bool, dscp uint8, provider *ntske.
 	})
 	w.useForwarder = forwarder
 	if forwarder {
-		cf, err := w.net.Listen(fmt.Sprintf("%s:%d", scCliIP, scEndhost), false)
+		cf, err := w.net.Listen(hp(scCliIP, scEndhost), false)
 		if err != nil {
 			panic(err)
 		}
@@ -262,7 +301,7 @@ func (w *scionWorld) startRouter(i int, c *simnet.UDPConn) {
 // mkPath builds an snet.Path through router i. kind: 0 = SCION path with the
 // given segment lengths, 1 = empty path.
 func (w *scionWorld) mkPath(router int, segLens []int, fpSalt int, srcIA, dstIA addr.IA) snet.Path {
-	nh := &net.UDPAddr{IP: net.ParseIP(fmt.Sprintf("10.0.1.%d", router+1)), Port: scRouterPort}
+	nh := &net.UDPAddr{IP: net.ParseIP(scRouterIP(router)), Port: scRouterPort}
 	p := spath.Path{Src: srcIA, Dst: dstIA, NextHop: nh}
 	if len(segLens) == 0 {
 		p.DataplanePath = spath.Empty{}
